@@ -558,7 +558,7 @@ func runC07(c *Ctx) {
 	}
 
 	// ---- R6 typed query conversion
-	c.rule("C07-R6", "EXH/MPT: convertValue has an arm for each scalar ast.Type a query parameter can declare (IntType, FloatType, BoolType, StringType, ArrayType); in each parsing arm, from the err!=nil edge of strconv.ParseInt / ParseFloat / parseBool every path to return returns a non-nil error (no lenient fallback turns an unparsable value into a number); both handlers turn ProcessQueryParams' error into a 4xx")
+	c.rule("C07-R6", "EXH/MPT: convertValue has an arm for each scalar ast.Type a query parameter can declare (IntType, FloatType, BoolType, StringType, ArrayType) and for the wrappers OptionalType and UnionType; from the err!=nil edge of strconv.ParseInt / ParseFloat / parseBool / a recursive convertValue every path to a success return crosses the success edge of another conversion (a later member of a union) - no lenient fallback turns an unparsable value into a value; both handlers turn ProcessQueryParams' error into a 4xx")
 	if cv := c.mustFn("C07-R6", interpPkg, "convertValue"); cv != nil {
 		have := map[string]bool{}
 		eachInstr(cv, func(_ *ssa.BasicBlock, _ int, ins ssa.Instruction) {
@@ -568,8 +568,27 @@ func runC07(c *Ctx) {
 				}
 			}
 		})
-		for _, t := range []string{"IntType", "FloatType", "BoolType", "StringType", "ArrayType"} {
-			c.ob("C07-R6", interpPkg+".convertValue#arm:"+t, cv.Pos(), have[t], "no conversion arm for "+t+": a query parameter declared with it is passed through as a string")
+		for _, t := range []string{"IntType", "FloatType", "BoolType", "StringType", "ArrayType", "OptionalType", "UnionType"} {
+			c.ob("C07-R6", interpPkg+".convertValue#arm:"+t, cv.Pos(), have[t], "no conversion arm for "+t+": a query parameter declared with it (`? page: int?`) is passed through as the raw string - ?page=abc runs the body, and ?page=5 arrives as \"5\"")
+		}
+		// the success edges of the conversion calls: a success return reached through one of them after an
+		// earlier member of a union failed is a conversion, not leniency
+		var convErrs []ssa.Value
+		eachInstr(cv, func(_ *ssa.BasicBlock, _ int, ins ssa.Instruction) {
+			if call, ok := ins.(*ssa.Call); ok {
+				switch callName(call) {
+				case "strconv.ParseInt", "strconv.ParseFloat", interpPath + ".parseBool", "strconv.ParseBool", interpPath + ".convertValue":
+					convErrs = append(convErrs, extractOf(call, 1)...)
+				}
+			}
+		})
+		cutConverted := func(b *ssa.BasicBlock, si int) bool {
+			for _, e := range convErrs {
+				if nilOnEdge(b, si, e) {
+					return true
+				}
+			}
+			return false
 		}
 		k := 0
 		eachInstr(cv, func(_ *ssa.BasicBlock, _ int, ins ssa.Instruction) {
@@ -588,12 +607,12 @@ func runC07(c *Ctx) {
 							continue
 						}
 						k++
-						q := &pathQuery{fn: cv, target: func(x ssa.Instruction) bool {
+						q := &pathQuery{fn: cv, cutEdge: cutConverted, target: func(x ssa.Instruction) bool {
 							r, ok := x.(*ssa.Return)
 							return ok && isNilConst(stripConv(retVals(r)[1]))
 						}}
 						hit, path := q.from(s, 0)
-						c.ob("C07-R6", interpPkg+".convertValue#parse-error-is-returned-"+itoa(k)+":"+short(n), call.Pos(), hit == nil, "after "+short(n)+" failed a success return is still reachable: an unparsable typed query value is accepted (converted leniently) instead of yielding a 4xx", c.blockPath(path)...)
+						c.ob("C07-R6", interpPkg+".convertValue#parse-error-is-returned-"+itoa(k)+":"+short(n), call.Pos(), hit == nil, "after "+short(n)+" failed a success return is still reachable without any other conversion having succeeded: an unparsable typed query value is accepted (converted leniently) instead of yielding a 4xx", c.blockPath(path)...)
 					}
 				}
 			}
